@@ -37,6 +37,8 @@ type Solver struct {
 	ufDecl  map[string]int // uf name -> level
 	byLevel [][]int
 	ufLevel [][]string
+	arith   int
+	arithLevel []int
 	// textual log of everything sent per level (for restart after a kill)
 	log [][]string
 
@@ -79,6 +81,8 @@ func (s *Solver) start() error {
 	s.ufDecl = map[string]int{}
 	s.byLevel = [][]int{nil}
 	s.ufLevel = [][]string{nil}
+	s.arith = 0
+	s.arithLevel = []int{0}
 	s.log = [][]string{nil}
 	s.raw("(set-option :print-success false)")
 	if strings.Contains(s.cmdline[0], "z3") {
@@ -116,6 +120,7 @@ func (s *Solver) Push() {
 	s.level++
 	s.byLevel = append(s.byLevel, nil)
 	s.ufLevel = append(s.ufLevel, nil)
+	s.arithLevel = append(s.arithLevel, 0)
 	s.log = append(s.log, nil)
 	s.raw("(push 1)")
 }
@@ -127,6 +132,8 @@ func (s *Solver) Pop() {
 	for _, n := range s.ufLevel[s.level] {
 		delete(s.ufDecl, n)
 	}
+	s.arith -= s.arithLevel[s.level]
+	s.arithLevel = s.arithLevel[:s.level]
 	s.byLevel = s.byLevel[:s.level]
 	s.ufLevel = s.ufLevel[:s.level]
 	s.log = s.log[:s.level]
@@ -155,6 +162,7 @@ func (s *Solver) restart() {
 			s.raw("(push 1)")
 			s.byLevel = append(s.byLevel, nil)
 			s.ufLevel = append(s.ufLevel, nil)
+			s.arithLevel = append(s.arithLevel, 0)
 			s.log = append(s.log, nil)
 		}
 		for _, l := range lines {
@@ -223,6 +231,13 @@ func (s *Solver) ref(t *Term) string {
 		body = s.bvBody(t, args)
 	}
 	s.send("(define-fun " + name + " () " + srt + " " + body + ")")
+	switch t.Op {
+	case OpMul, OpUDiv, OpURem, OpSDiv, OpSRem:
+		if !t.A[0].IsConst() || !t.A[1].IsConst() {
+			s.arith++
+			s.arithLevel[s.level]++
+		}
+	}
 	s.defined[t.id] = s.level
 	s.byLevel[s.level] = append(s.byLevel[s.level], t.id)
 	return name
@@ -366,6 +381,11 @@ func (s *Solver) checkCmd() string {
 		return "(check-sat)"
 	}
 	if len(s.ufDecl) > 0 {
+		if s.arith == 0 {
+			// equality/UF reasoning without multipliers: the incremental core
+			// (congruence closure + lazy bit-blasting) is the better engine
+			return "(check-sat)"
+		}
 		return "(check-sat-using (then simplify solve-eqs (or-else (then ackermannize_bv simplify bit-blast sat) smt)))"
 	}
 	return "(check-sat-using (then simplify solve-eqs bit-blast sat))"
